@@ -189,6 +189,14 @@ impl CacheBuffer {
     /// Reserve capacity for buffer
     pub fn reserve(&mut self, capacity: usize) {
         self.data_buffer.reserve(capacity);
+
+        // Reserving may move the allocation: re-point the data slice at the
+        // buffer, otherwise data() keeps reading the freed block
+        if let Some(slice) = self.data_slice {
+            let len = std::cmp::min(slice.len(), self.data_buffer.len());
+            let data_ptr = self.data_buffer.as_ptr();
+            self.data_slice = Some(unsafe { std::slice::from_raw_parts(data_ptr, len) });
+        }
     }
     
     /// Get buffer capacity
